@@ -87,6 +87,31 @@ def site_obligations(rep, kf):
         else:
             ob.status, ob.detail = PROVED, "all generated files parse"
         rep.add(ob)
+    # double-quote probe: the parser escapes a double quote once (remove_string_escapes); a site that escapes or unescapes
+    # again (a template filter on the way to a "..." / TOML string) breaks exactly on such a text
+    for meta, cfg in (("none", {}), ("poetry", {}), ("setup", {"literal_enums": True}), ("pdm", {})):
+        occ, errors, files, doc = sites.collect(cfg, meta, probe='"q', probed=sites.DQ_PROBED)
+        from pyvc.replay import py_syntax_errors
+        bad = dict(py_syntax_errors(files))
+        for name, text in files.items():
+            if name.endswith(".toml") and text is not None:
+                try:
+                    import tomllib
+                    tomllib.loads(text)
+                except Exception as e:      # noqa: BLE001
+                    bad[name] = f"invalid TOML: {e}"
+        ob = Obligation(id=f"C05.C.double-quote-probe[{meta}]", props=["C05", "C01"],
+                        unit="templates: every \"...\" / TOML string context reached by a name, value or title slot",
+                        backend="cpython compiler / tomllib",
+                        formula="with a double quote in every name / value / title slot all generated files still parse: the one "
+                                "escaping done by the parser is neither repeated nor undone at any site")
+        if bad:
+            ob.status, ob.detail = REFUTED, f"files no longer parse: {bad}"
+            ob.witness = {"kind": "generate", "document": doc, "config": cfg, "meta": meta, "violates": "py_syntax_errors(files) != {}",
+                          "observe": "py_syntax_errors(files)"}
+        else:
+            ob.status, ob.detail = PROVED, "all generated files parse"
+        rep.add(ob)
     rep.extra["site_pairs"] = {f"{s}@{c}": len(v) for (s, c), v in sorted(pairs.items())}
     rep.extra["site_occurrences"] = sum(len(v) for v in pairs.values())
     done = {}
